@@ -19,6 +19,39 @@ package main
 //	                             exactly as long as some peer has not been invoked, so "a slow closer never prevents the others
 //	                             from being invoked" means: nobody has to give up.
 //	                             observation  calls=1,1,… done=1,1,… gaveup=<closers that gave up>
+//	closea <n> <errmask> <amask> <bmask> <tmask> <seed>
+//	                             as `close`, but closer i (bit i of amask) is a component that is itself wired with the
+//	                             application (`A *app.App \`wire:""\``: a shutdown hook that looks things up through the App), and
+//	                             closer i (bit i of bmask) has a name that sorts BEFORE the App's own component name
+//	                             `github.com/go-kid/ioc/app/App` (custom names through Naming(): `a-vc…`, `github.com/go-kid/ioc/app/A…`,
+//	                             `Vc…`; the others `vc…`, `github.com/go-kid/ioc/app/App…`, `z-vc…`), so that it is created before
+//	                             the App and the App — created inside it — collects a closer that is still in creation. tmask:
+//	                             bits 0/1 add a closer of the type vATC0 / vATC1 (wired with the App, named by the container
+//	                             after its TYPE, which sorts after the App), bits 2/3 add a component `a-pull0/1` that is wired
+//	                             with that closer and pulls it in before the App. They are closers n, n+1 of the observation.
+//	                             observation as `close` (n + number of type-named closers entries)
+//	closed <n> <errmask> <pairs> <seed>
+//	                             as `close`, plus components of DIFFERENT types that PRINT THE SAME (reflect.Type.String()):
+//	                             pairs = tokens joined by `.`, a token = kind + order. Kinds: `p` dupa/conn.Conn (closer) and
+//	                             dupb/conn.Conn (nothing to close), both `*conn.Conn`, named after their types; `n` the same
+//	                             with conn.Pool, self-named; `l` two function-local types `conn` of this package (`*main.conn`),
+//	                             one of which embeds a closer; `q` dupa/conn.Sess and dupb/conn.Sess, BOTH closers. Orders:
+//	                             `c` the closer (for q: dupa) is registered before the other one, `x` after it — both in one
+//	                             App; `s` / `t`: the pair is split over TWO Apps that are started and closed one after the
+//	                             other in this process (`s` the closer's App first, `t` the other one's App first; the second
+//	                             App has no further closers). Whatever the library remembers per type lives as long as the
+//	                             process, and the harness process runs many scenarios.
+//	                             observation  calls=… done=…  per App (joined by ` / `): the n ordinary closers, then the
+//	                             closers of the pairs in token order
+//	closel <n> <errmask> <rounds> <seed>
+//	                             (C20) `close` under an OBSERVER of the closing phase: a user logger installed through the
+//	                             library's logging hook (syslog.SetLogger / app.SetLogger) before the first App of the process
+//	                             exists (always run in a fresh child process: the per-prefix loggers are cached process-wide);
+//	                             it takes 100 µs per record like a file sink and counts completed error-level records. rounds
+//	                             fresh Apps; read IMMEDIATELY after App.Close returned: the closers' counters and the number
+//	                             of records; then, only if fewer records than failing closers were there, the harness waits
+//	                             up to 300 ms for records that arrive AFTER the return.
+//	                             observation  calls=… done=… reports=<records complete when Close returned>
 //	cstart <hist> <nops> <sync> <trials> <r>x<m> <r>x<m> …
 //	                             CONCURRENT starts of different Apps in one process (always in a fresh child process, because
 //	                             app.Settings is process-global): first the app.Settings history `hist` (`1.1.1` = three calls
@@ -38,6 +71,18 @@ package main
 //	                             between components is written for the first time by several scan goroutines at once. Always run
 //	                             in its own child process (process-wide state is cold exactly once per process).
 //	                             observation  errs=0 | errs=? (start failed) | race | hang | panic
+//	gmor <g> <trials>            forced concurrency on the definition registry: up to <trials> fresh
+//	                             support.DefaultDefinitionRegistry(); g goroutines released together from a spinning barrier
+//	                             all call GetMetaOrRegister(<one name>, <their own component>) — the load-or-store the
+//	                             parallel definition scan is built on. After they have returned: the number of distinct
+//	                             definitions handed out, how often GetMetas() lists the name, and whether every caller holds
+//	                             the definition GetMetaByName returns.
+//	                             observation  defs=<n> listed=<n> kept=<0|1>   (of the first deviating trial, else of the last)
+//	gscan <n> <trials> <seed>    the same in situ: <trials> real starts with n components and a user
+//	                             DefinitionRegistryPostProcessor that, for each of them, load-or-stores the definition of ONE
+//	                             shared extra component (`vjournal`, contributed by the scanner, not registered by the user)
+//	                             while the container scans the n components in parallel (the calls line up at a barrier).
+//	                             observation  errs=<0|?> defs=<n> kept=<0|1>
 //	lofn <digits>                forced schedule of two LoadOrStoreFn callers (value function blocks on a channel)
 //	                             observation  t0=<v>,<loaded> t1=<v>,<loaded>
 //	range <nk> <a>               forced schedule: after a visits of a Range another goroutine deletes every key
@@ -61,6 +106,13 @@ package main
 // Oracles (on the real code's own observation, independent of the model):
 //   close/closez: every counter = 1 and every completion flag set at return (close-not-all-once, close-hang)
 //   closew: as close, and no closer had to give up waiting for its peers to be invoked           (close-slow-blocks-others)
+//   closea/closed: as close — every REGISTERED closer component, whatever it is wired with, whatever its name, whatever its
+//          type prints like: counter = 1 and completion flag set at return                        (close-not-all-once)
+//   closel: as close, and the closing phase is over when Close returns: no record of a closer goroutine reaches the user's
+//          logger after App.Close has returned (such a goroutine is still running, unordered with everything the caller does
+//          next)                                                                                (close-report-after-return)
+//   gmor/gscan: all callers of one load-or-store of a name hold the SAME definition, the one the registry keeps, listed
+//          once                                                                   (getmeta-two-winners, scan-two-definitions)
 //   cstart: per App, each of ITS runners was invoked exactly once per round (c13-conc-once), by the start of the App it is
 //          registered with (c13-conc-foreign), and not before every component of that App was initialised (c13-conc-after-ready)
 //   fstart: no race report, no hang/panic of the start                      (race, fstart-hang, fstart-panic)
@@ -88,11 +140,15 @@ import (
 	"time"
 
 	"github.com/go-kid/ioc/app"
+	"github.com/go-kid/ioc/component_definition"
 	"github.com/go-kid/ioc/container"
+	"github.com/go-kid/ioc/container/support"
 	"github.com/go-kid/ioc/syslog"
 	"github.com/go-kid/ioc/util/list"
 	"github.com/go-kid/ioc/util/sync2"
 
+	dupa "verifharness/internal/dupa/conn"
+	dupb "verifharness/internal/dupb/conn"
 	"verifharness/internal/hx"
 )
 
@@ -394,6 +450,31 @@ func closeCorpus(w *hx.Writer) {
 	w.Put(runCloseW(40, 0x8421084210, 0, 11))   // every 5th fails (after having waited)
 	w.Put(runCloseW(33, 1<<32, 0x0F0F0F0F, 12)) // the last one fails; 16 fast ones in between
 	w.Put(runCloseW(3, 2, 0, 13))
+	// closers that are wired with the App: one hook created before the App (custom name `a-vc000`), alone and among others;
+	// the same hook created after the App; wired closers on both sides of the App's name, some failing; type-named wired
+	// closers, pulled in early by `a-pull…` or not
+	w.Put(runCloseA(1, 0, 1, 1, 0, 14, 5))
+	w.Put(runCloseA(1, 0, 1, 0, 0, 15, 5))
+	w.Put(runCloseA(8, 0x24, 0x0F, 0x33, 0, 16, 10))
+	w.Put(runCloseA(6, 0x41, 0x3F, 0x3F, 0, 17, 10))
+	w.Put(runCloseA(3, 0, 0, 7, 0, 18, 5)) // early names, nobody wired
+	w.Put(runCloseA(2, 4, 2, 2, 0xF, 19, 5))
+	w.Put(runCloseA(0, 0, 0, 0, 5, 20, 0))
+	w.Put(runCloseA(4, 0, 0xF, 0, 3, 21, 5)) // everybody wired, everybody after the App
+	// different types that print the same, exactly one of them a closer: both registration orders, alone and among other
+	// closers, split over two consecutive Apps of this process, every kind of pair at once
+	w.Put(runCloseD(0, 0, "pc", 22, 0))
+	w.Put(runCloseD(0, 0, "px", 23, 0))
+	w.Put(runCloseD(5, 2, "nc", 24, 10))
+	w.Put(runCloseD(5, 9, "nx", 25, 10))
+	w.Put(runCloseD(3, 0, "lc", 26, 5))
+	w.Put(runCloseD(3, 0, "lx", 27, 5))
+	w.Put(runCloseD(2, 0, "qc", 28, 5))
+	w.Put(runCloseD(2, 1, "pt", 29, 5))
+	w.Put(runCloseD(2, 2, "ns", 30, 5))
+	w.Put(runCloseD(1, 0, "lt.qs", 31, 5))
+	w.Put(runCloseD(6, 0x15, "px.nc.lx.qx", 32, 10))
+	w.Put(runCloseD(4, 0, "-", 33, 5))
 }
 
 func closeGen(rng *hx.Rng, n int, tier string, w *hx.Writer) {
@@ -455,6 +536,12 @@ func closeGen(rng *hx.Rng, n int, tier string, w *hx.Writer) {
 			continue
 		}
 		w.Put(runCloseZ(nc, mask, zmask, sd, 30))
+	}
+	// two further kinds, appended (so the cases above are the ones they were before these kinds existed): n/8 cases each of
+	// closers that are wired with the App and of component types that print the same
+	for i := 0; i < n/8; i++ {
+		w.Put(genCloseA(rng.Fork()))
+		w.Put(genCloseD(rng.Fork()))
 	}
 }
 
@@ -583,6 +670,441 @@ func runCloseW(n int, mask, fastmask, seed uint64) hx.Case {
 		}
 	}
 	return hx.Case{Scn: scn, Obs: "calls=" + strings.Join(cs, ",") + " done=" + strings.Join(ds, ",") + fmt.Sprintf(" gaveup=%d", gave), Oracle: oracle, Tags: tags}
+}
+
+// ---------------------------------------------------------------- closea: closers that are themselves wired with the App
+
+// vACloser: a closer component with an injection point of the type *app.App (a shutdown hook that reaches other components
+// through the application). When its name sorts before the App's, Refresh creates it first, the App is created INSIDE its
+// population, and the App's own `CloserComponents []definition.CloserComponent` point has to collect a closer that is still
+// in creation (an early reference).
+type vACloser struct {
+	N     string
+	A     *app.App `wire:""`
+	delay time.Duration
+	fail  bool
+	calls int32
+	done  int32
+}
+
+func (c *vACloser) Naming() string { return c.N }
+func (c *vACloser) Close() error {
+	atomic.AddInt32(&c.calls, 1)
+	if c.delay > 0 {
+		time.Sleep(c.delay)
+	}
+	atomic.StoreInt32(&c.done, 1)
+	if c.fail {
+		return errors.New("close failed")
+	}
+	return nil
+}
+
+type vATState struct {
+	delay       time.Duration
+	fail        bool
+	calls, done int32
+}
+
+func (s *vATState) close() error {
+	atomic.AddInt32(&s.calls, 1)
+	if s.delay > 0 {
+		time.Sleep(s.delay)
+	}
+	atomic.StoreInt32(&s.done, 1)
+	if s.fail {
+		return errors.New("close failed")
+	}
+	return nil
+}
+
+// vATC0 / vATC1: closers wired with the App that are named by the container after their type (`main/vATC0`: sorts after the
+// App); vAPull0 / vAPull1 are ordinary components with an early name that are wired with them and so pull them in first.
+type vATC0 struct {
+	A  *app.App `wire:""`
+	st *vATState
+}
+type vATC1 struct {
+	A  *app.App `wire:""`
+	st *vATState
+}
+
+func (c *vATC0) Close() error { return c.st.close() }
+func (c *vATC1) Close() error { return c.st.close() }
+
+type vAPull0 struct {
+	N string
+	C *vATC0 `wire:""`
+}
+type vAPull1 struct {
+	N string
+	C *vATC1 `wire:""`
+}
+
+func (p *vAPull0) Naming() string { return p.N }
+func (p *vAPull1) Naming() string { return p.N }
+
+// closeaName: a custom component name before (`before`) or after the App's own name github.com/go-kid/ioc/app/App
+func closeaName(i int, before bool) string {
+	if before {
+		return fmt.Sprintf([]string{"a-vc%03d", "github.com/go-kid/ioc/app/A%03d", "Vc%03d"}[i%3], i)
+	}
+	return fmt.Sprintf([]string{"vc%03d", "github.com/go-kid/ioc/app/App%03d", "z-vc%03d"}[i%3], i)
+}
+
+// closeSampler reads one closer's invocation counter and completion flag
+type closeSampler func() (calls, done int32)
+
+// closeAndSample: App.Close() under the watchdog; every counter is sampled IMMEDIATELY after Close returned. The verdict is
+// the exactly-once oracle of `close`: every registered closer invoked once and returned.
+func closeAndSample(a *app.App, samplers []closeSampler, what func(i int) string, atReturn ...func()) (obs, oracle, out string) {
+	n := len(samplers)
+	calls := make([]int32, n)
+	done := make([]int32, n)
+	out = withWatchdog(10*time.Second, func() {
+		a.Close()
+		for _, f := range atReturn {
+			f()
+		}
+		for i, s := range samplers {
+			calls[i], done[i] = s()
+		}
+	})
+	if out != "" {
+		return out, "FAIL close-" + out + " App.Close did not return normally", out
+	}
+	var cs, ds []string
+	for i := 0; i < n; i++ {
+		cs = append(cs, strconv.Itoa(int(calls[i])))
+		ds = append(ds, strconv.Itoa(int(done[i])))
+		if (calls[i] != 1 || done[i] != 1) && oracle == "" {
+			oracle = fmt.Sprintf("FAIL close-not-all-once closer %d of %d (%s): calls=%d returned=%d when App.Close returned", i, n, what(i), calls[i], done[i])
+		}
+	}
+	return "calls=" + strings.Join(cs, ",") + " done=" + strings.Join(ds, ","), oracle, ""
+}
+
+// runCloseA: see the header (`closea`).
+func runCloseA(n int, mask, amask, bmask, tmask, seed uint64, maxDelayMs int) hx.Case {
+	concQuiet()
+	scn := fmt.Sprintf("closea %d %d %d %d %d %d", n, mask, amask, bmask, tmask, seed)
+	if n < 0 || n > 60 || tmask > 15 || (n < 64 && (mask>>uint(n+2) != 0 || amask>>uint(n) != 0 || bmask>>uint(n) != 0)) {
+		return hx.Case{Scn: scn, Obs: "bad-line", Oracle: "FAIL bad-line"}
+	}
+	rng := hx.NewRng(seed ^ 0xC105EA)
+	delay := func() time.Duration {
+		if maxDelayMs > 0 && rng.P(1, 2) {
+			return time.Duration(rng.Intn(maxDelayMs*1000+1)) * time.Microsecond
+		}
+		return 0
+	}
+	var comps []any
+	var samplers []closeSampler
+	var names []string
+	nfail, nwired, nearly := 0, 0, 0
+	for i := 0; i < n; i++ {
+		name := closeaName(i, bit(bmask, i))
+		names = append(names, name)
+		if bit(mask, i) {
+			nfail++
+		}
+		if bit(amask, i) {
+			c := &vACloser{N: name, delay: delay(), fail: bit(mask, i)}
+			comps = append(comps, c)
+			samplers = append(samplers, func() (int32, int32) { return atomic.LoadInt32(&c.calls), atomic.LoadInt32(&c.done) })
+			nwired++
+			if bit(bmask, i) {
+				nearly++
+			}
+			continue
+		}
+		c := &vCloser{N: name, delay: delay(), fail: bit(mask, i)}
+		comps = append(comps, c)
+		samplers = append(samplers, func() (int32, int32) { return atomic.LoadInt32(&c.calls), atomic.LoadInt32(&c.done) })
+	}
+	// the type-named closers (entries n, n+1 of the observation) and the components that pull them in early
+	k := n
+	for t := 0; t < 2; t++ {
+		if !bit(tmask, t) {
+			continue
+		}
+		st := &vATState{delay: delay(), fail: bit(mask, k)}
+		if st.fail {
+			nfail++
+		}
+		nwired++
+		pulled := bit(tmask, 2+t)
+		if pulled {
+			nearly++
+		}
+		if t == 0 {
+			c := &vATC0{st: st}
+			comps = append(comps, c)
+			if pulled {
+				comps = append(comps, &vAPull0{N: "a-pull0", C: nil})
+			}
+			names = append(names, "type-named vATC0")
+		} else {
+			c := &vATC1{st: st}
+			comps = append(comps, c)
+			if pulled {
+				comps = append(comps, &vAPull1{N: "a-pull1", C: nil})
+			}
+			names = append(names, "type-named vATC1")
+		}
+		samplers = append(samplers, func() (int32, int32) { return atomic.LoadInt32(&st.calls), atomic.LoadInt32(&st.done) })
+		k++
+	}
+	// registration order is part of the input: a rotation chosen from the seed
+	if len(comps) > 1 {
+		r := rng.Intn(len(comps))
+		comps = append(append([]any{}, comps[r:]...), comps[:r]...)
+	}
+	tags := []string{"close", "closers-wired-with-the-app", fmt.Sprintf("closers=%s", bucket(k)), fmt.Sprintf("failing=%s", bucket(nfail)),
+		fmt.Sprintf("wired-with-app=%s", bucket(nwired)), fmt.Sprintf("wired-and-created-before-app=%s", bucket(nearly))}
+	if nearly == 0 {
+		tags = append(tags, "trivial")
+	}
+	a := app.NewApp()
+	var err error
+	if out := withWatchdog(20*time.Second, func() { err = a.Run(app.SetComponents(comps...), app.SetConfigLoader()) }); out != "" || err != nil {
+		return hx.Case{Scn: scn, Obs: "run-" + out + "-failed", Oracle: "FAIL close-run-failed " + fmt.Sprint(err), Tags: tags}
+	}
+	obs, oracle, _ := closeAndSample(a, samplers, func(i int) string {
+		w := ""
+		if i >= n || bit(amask, i) {
+			w = ", wired with the *app.App"
+		}
+		return fmt.Sprintf("component %q%s", names[i], w)
+	})
+	return hx.Case{Scn: scn, Obs: obs, Oracle: oracle, Tags: tags}
+}
+
+// ---------------------------------------------------------------- closed: different types that print the same
+
+type dupBase struct {
+	name        string
+	calls, done int32
+}
+
+func (b *dupBase) Naming() string { return b.name }
+func (b *dupBase) Close() error {
+	atomic.AddInt32(&b.calls, 1)
+	time.Sleep(200 * time.Microsecond)
+	atomic.StoreInt32(&b.done, 1)
+	return nil
+}
+
+type dupPlain struct{ name string }
+
+func (p *dupPlain) Naming() string { return p.name }
+
+// two function-local types of one name: both print as `*main.conn`; the first is a closer (it embeds one), the second is not
+func newLocalCloser(name string) (any, *dupBase) {
+	type conn struct{ *dupBase }
+	b := &dupBase{name: name}
+	return &conn{b}, b
+}
+
+func newLocalPlain(name string) any {
+	type conn struct{ *dupPlain }
+	return &conn{&dupPlain{name}}
+}
+
+type dupTok struct{ kind, order byte }
+
+func parseDupPairs(s string) ([]dupTok, bool) {
+	if s == "-" {
+		return nil, true
+	}
+	var out []dupTok
+	seen := map[byte]bool{}
+	for _, t := range strings.Split(s, ".") {
+		if len(t) != 2 || !strings.ContainsRune("pnlq", rune(t[0])) || !strings.ContainsRune("cxst", rune(t[1])) || seen[t[0]] {
+			return nil, false
+		}
+		seen[t[0]] = true
+		out = append(out, dupTok{t[0], t[1]})
+	}
+	return out, len(out) > 0
+}
+
+// dupMember: one component of a pair; sample == nil: it has nothing to close
+type dupMember struct {
+	comp   any
+	sample closeSampler
+	what   string
+}
+
+// dupPair builds the two members of a pair: the closer (for `q`: dupa's closer) and the other one
+func dupPair(kind byte) (closer, other dupMember) {
+	switch kind {
+	case 'p':
+		st := &dupa.State{}
+		return dupMember{&dupa.Conn{St: st}, st.Sample, "dupa/conn.Conn (prints *conn.Conn)"}, dupMember{&dupb.Conn{}, nil, "dupb/conn.Conn"}
+	case 'n':
+		st := &dupa.State{}
+		return dupMember{&dupa.Pool{N: "dup-pool-a", St: st}, st.Sample, "dupa/conn.Pool \"dup-pool-a\" (prints *conn.Pool)"}, dupMember{&dupb.Pool{N: "dup-pool-b"}, nil, "dupb/conn.Pool"}
+	case 'l':
+		c, b := newLocalCloser("dup-local-a")
+		return dupMember{c, func() (int32, int32) { return atomic.LoadInt32(&b.calls), atomic.LoadInt32(&b.done) }, "function-local type conn \"dup-local-a\" (prints *main.conn)"},
+			dupMember{newLocalPlain("dup-local-b"), nil, "function-local type conn"}
+	}
+	sa, sb := &dupa.State{}, &dupb.State{}
+	return dupMember{&dupa.Sess{St: sa}, sa.Sample, "dupa/conn.Sess (prints *conn.Sess)"}, dupMember{&dupb.Sess{St: sb}, sb.Sample, "dupb/conn.Sess (prints *conn.Sess)"}
+}
+
+// runCloseD: see the header (`closed`).
+func runCloseD(n int, mask uint64, pairs string, seed uint64, maxDelayMs int) hx.Case {
+	concQuiet()
+	scn := fmt.Sprintf("closed %d %d %s %d", n, mask, pairs, seed)
+	toks, ok := parseDupPairs(pairs)
+	if !ok || n < 0 || n > 62 || mask>>uint(n) != 0 {
+		return hx.Case{Scn: scn, Obs: "bad-line", Oracle: "FAIL bad-line"}
+	}
+	rng := hx.NewRng(seed ^ 0xC105ED)
+	type round struct {
+		comps    []any
+		samplers []closeSampler
+		whats    []string
+	}
+	rounds := []*round{{}, {}}
+	nfail := 0
+	for i := 0; i < n; i++ {
+		d := time.Duration(0)
+		if maxDelayMs > 0 && rng.P(1, 2) {
+			d = time.Duration(rng.Intn(maxDelayMs*1000+1)) * time.Microsecond
+		}
+		if bit(mask, i) {
+			nfail++
+		}
+		c := &vCloser{N: fmt.Sprintf("vc%03d", i), delay: d, fail: bit(mask, i)}
+		rounds[0].comps = append(rounds[0].comps, c)
+		rounds[0].samplers = append(rounds[0].samplers, func() (int32, int32) { return atomic.LoadInt32(&c.calls), atomic.LoadInt32(&c.done) })
+		rounds[0].whats = append(rounds[0].whats, fmt.Sprintf("ordinary closer %q", c.N))
+	}
+	two := false
+	add := func(r *round, m dupMember, at int) {
+		r.comps = append(r.comps[:at], append([]any{m.comp}, r.comps[at:]...)...)
+		if m.sample != nil {
+			r.samplers = append(r.samplers, m.sample)
+			r.whats = append(r.whats, m.what)
+		}
+	}
+	for _, t := range toks {
+		closer, other := dupPair(t.kind)
+		first, second := closer, other
+		if t.order == 'x' || t.order == 't' {
+			first, second = other, closer
+		}
+		if t.order == 's' || t.order == 't' {
+			two = true
+			add(rounds[0], first, rng.Intn(len(rounds[0].comps)+1))
+			add(rounds[1], second, rng.Intn(len(rounds[1].comps)+1))
+			continue
+		}
+		// both in the first App, `first` registered before `second`
+		p1 := rng.Intn(len(rounds[0].comps) + 1)
+		add(rounds[0], first, p1)
+		add(rounds[0], second, p1+1+rng.Intn(len(rounds[0].comps)-p1))
+	}
+	// samplers are listed ordinary closers first, then pair closers in token order; for a pair with two closers in one App
+	// (`qc`/`qx`) the order is the registration order
+	tags := []string{"close", "types-that-print-the-same", fmt.Sprintf("closers=%s", bucket(n)), fmt.Sprintf("failing=%s", bucket(nfail)),
+		fmt.Sprintf("same-print-pairs=%d", len(toks))}
+	if two {
+		tags = append(tags, "pair-split-over-two-apps")
+	}
+	if len(toks) == 0 {
+		tags = append(tags, "trivial")
+	}
+	if !two {
+		rounds = rounds[:1]
+	}
+	var obsAll []string
+	oracle := ""
+	for ri, r := range rounds {
+		a := app.NewApp()
+		var err error
+		if out := withWatchdog(20*time.Second, func() { err = a.Run(app.SetComponents(r.comps...), app.SetConfigLoader()) }); out != "" || err != nil {
+			return hx.Case{Scn: scn, Obs: "run-" + out + "-failed", Oracle: "FAIL close-run-failed " + fmt.Sprint(err), Tags: tags}
+		}
+		obs, orc, out := closeAndSample(a, r.samplers, func(i int) string { return fmt.Sprintf("%s, App %d of %d of this scenario", r.whats[i], ri+1, len(rounds)) })
+		if out != "" {
+			return hx.Case{Scn: scn, Obs: obs, Oracle: orc, Tags: tags}
+		}
+		obsAll = append(obsAll, obs)
+		if oracle == "" {
+			oracle = orc
+		}
+	}
+	return hx.Case{Scn: scn, Obs: strings.Join(obsAll, " / "), Oracle: oracle, Tags: tags}
+}
+
+// genCloseA / genCloseD: the generated cases of the two kinds (appended to the stream of `close` cases, which draws what it
+// drew before these kinds existed)
+func genCloseA(r *hx.Rng) hx.Case {
+	nc := 1 + r.Intn(12)
+	if r.P(1, 6) {
+		nc = r.Intn(3)
+	}
+	all := uint64(1)<<uint(nc) - 1
+	var mask uint64
+	switch r.Intn(3) {
+	case 1:
+		mask = r.U64() & all
+	case 2:
+		mask = r.U64() & (all | 3<<uint(nc))
+	}
+	amask := r.U64() & all
+	if r.P(1, 3) {
+		amask = all
+	}
+	if r.P(1, 4) && nc > 0 {
+		amask = 1 << uint(r.Intn(nc)) // a single hook
+	}
+	bmask := r.U64() & all
+	if r.P(1, 4) {
+		bmask = amask // exactly the wired ones come first
+	}
+	tmask := uint64(0)
+	if r.P(1, 2) {
+		tmask = uint64(r.Intn(16))
+		if tmask&1 == 0 {
+			tmask &^= 4
+		}
+		if tmask&2 == 0 {
+			tmask &^= 8
+		}
+	}
+	extra := uint64(0) // failing flags of the type-named closers: entries nc, nc+1 of the observation
+	for t := uint(0); t < 2; t++ {
+		if tmask>>t&1 == 1 {
+			extra = extra<<1 | 1
+		}
+	}
+	mask &= all | extra<<uint(nc)
+	return runCloseA(nc, mask, amask, bmask, tmask, r.U64()%1000000, 10)
+}
+
+var dupKinds = []byte("pnlq")
+
+func genCloseD(r *hx.Rng) hx.Case {
+	nc := r.Intn(9)
+	all := uint64(1)<<uint(nc) - 1
+	var mask uint64
+	if r.P(1, 2) {
+		mask = r.U64() & all
+	}
+	k := 1
+	if r.P(1, 3) {
+		k = 2 + r.Intn(3)
+	}
+	var toks []string
+	for _, j := range r.Perm(len(dupKinds))[:k] {
+		toks = append(toks, string([]byte{dupKinds[j], "cxst"[r.Intn(4)]}))
+	}
+	return runCloseD(nc, mask, strings.Join(toks, "."), r.U64()%1000000, 10)
 }
 
 // ---------------------------------------------------------------- cstart: concurrent starts of different Apps (C13)
@@ -1103,6 +1625,296 @@ func runFstart(n int, kinds, seed uint64) hx.Case {
 	return c
 }
 
+// ---------------------------------------------------------------- closel: the closing phase seen through the user's logger
+
+// recLogger is a user-supplied logger (syslog.Logger): it keeps no text, it counts completed error-level records. A record
+// takes 100 µs, like a sink that writes to a file or a socket. Safe for concurrent use (several closers may fail at once).
+type recLogger struct{}
+
+var recLog struct {
+	errors int64 // completed error-level records
+}
+
+func recError() {
+	time.Sleep(100 * time.Microsecond)
+	atomic.AddInt64(&recLog.errors, 1)
+}
+
+func (recLogger) Level(syslog.Lv) syslog.Logger { return recLogger{} }
+func (recLogger) Pref(any) syslog.Logger        { return recLogger{} }
+func (recLogger) Trace(...any)                  {}
+func (recLogger) Tracef(string, ...any)         {}
+func (recLogger) Debug(...any)                  {}
+func (recLogger) Debugf(string, ...any)         {}
+func (recLogger) Info(...any)                   {}
+func (recLogger) Infof(string, ...any)          {}
+func (recLogger) Warn(...any)                   {}
+func (recLogger) Warnf(string, ...any)          {}
+func (recLogger) Error(v ...any)                { _ = fmt.Sprint(v...); recError() }
+func (recLogger) Errorf(f string, v ...any)     { _ = fmt.Sprintf(f, v...); recError() }
+func (recLogger) Panic(v ...any)                { panic(fmt.Sprint(v...)) }
+func (recLogger) Panicf(f string, v ...any)     { panic(fmt.Sprintf(f, v...)) }
+func (recLogger) Fatal(v ...any)                { panic(fmt.Sprint(v...)) }
+func (recLogger) Fatalf(f string, v ...any)     { panic(fmt.Sprintf(f, v...)) }
+
+// closelLateWait: how long the harness looks for records that arrive after App.Close returned (only when some are missing)
+const closelLateWait = 300 * time.Millisecond
+
+// runCloseL: see the header (`closel`). Needs a process in which no App has logged yet (the generator, the corpus and the
+// replay put closel lines into child processes of their own).
+func runCloseL(n int, mask uint64, rounds int, seed uint64, maxDelayMs int) hx.Case {
+	scn := fmt.Sprintf("closel %d %d %d %d", n, mask, rounds, seed)
+	if n < 0 || n > 62 || mask>>uint(n) != 0 || rounds < 1 || rounds > 200 {
+		return hx.Case{Scn: scn, Obs: "bad-line", Oracle: "FAIL bad-line"}
+	}
+	// how a user installs a logger: syslog.SetLogger (or the option app.SetLogger, which calls it) before the application runs
+	syslog.SetLogger(recLogger{})
+	nfail := 0
+	for i := 0; i < n; i++ {
+		if bit(mask, i) {
+			nfail++
+		}
+	}
+	tags := []string{"close", "closing-phase-observed-by-user-logger", fmt.Sprintf("closers=%s", bucket(n)), fmt.Sprintf("failing=%s", bucket(nfail))}
+	if nfail == 0 {
+		tags = append(tags, "trivial")
+	}
+	rng := hx.NewRng(seed ^ 0xC105E1)
+	obs, oracle := "", ""
+	for round := 0; round < rounds && oracle == ""; round++ {
+		closers := make([]*vCloser, n)
+		comps := make([]any, 0, n)
+		var samplers []closeSampler
+		for i := range closers {
+			d := time.Duration(0)
+			if maxDelayMs > 0 && rng.P(1, 2) {
+				d = time.Duration(rng.Intn(maxDelayMs*1000+1)) * time.Microsecond
+			}
+			c := &vCloser{N: fmt.Sprintf("vc%03d", i), delay: d, fail: bit(mask, i)}
+			closers[i] = c
+			comps = append(comps, c)
+			samplers = append(samplers, func() (int32, int32) { return atomic.LoadInt32(&c.calls), atomic.LoadInt32(&c.done) })
+		}
+		a := app.NewApp()
+		var err error
+		if out := withWatchdog(20*time.Second, func() { err = a.Run(app.SetLogger(recLogger{}), app.SetComponents(comps...), app.SetConfigLoader()) }); out != "" || err != nil {
+			return hx.Case{Scn: scn, Obs: "run-" + out + "-failed", Oracle: "FAIL close-run-failed " + fmt.Sprint(err), Tags: tags}
+		}
+		if _, ok := syslog.Pref("Application").(recLogger); !ok {
+			// the per-prefix loggers are created once per process: an App has logged before the logger was installed
+			return hx.Case{Scn: scn, Obs: "logger-not-installed", Oracle: "FAIL bad-line a closel scenario needs a fresh process", Tags: tags}
+		}
+		atomic.StoreInt64(&recLog.errors, 0)
+		var atReturn int64
+		// first of all: what the user's logger holds when Close has returned
+		o, orc, out := closeAndSample(a, samplers, func(i int) string { return "component " + closers[i].N },
+			func() { atReturn = atomic.LoadInt64(&recLog.errors) })
+		if out != "" {
+			return hx.Case{Scn: scn, Obs: o, Oracle: orc, Tags: tags}
+		}
+		obs = fmt.Sprintf("%s reports=%d", o, atReturn)
+		oracle = orc
+		if int(atReturn) < nfail {
+			// fewer records than failing closers: do the others arrive now, after Close has returned?
+			deadline := time.Now().Add(closelLateWait)
+			for time.Now().Before(deadline) && atomic.LoadInt64(&recLog.errors) < int64(nfail) {
+				time.Sleep(200 * time.Microsecond)
+			}
+			if late := atomic.LoadInt64(&recLog.errors) - atReturn; late > 0 && oracle == "" {
+				oracle = fmt.Sprintf("FAIL close-report-after-return round %d: %d of %d closers failed; when App.Close returned the user's logger held %d error record(s), "+
+					"%d more arrived within %v AFTER the return: goroutines of the closing phase were still running when Close returned", round, nfail, n, atReturn, late, closelLateWait)
+			}
+			break
+		}
+	}
+	return hx.Case{Scn: scn, Obs: obs, Oracle: oracle, Tags: tags}
+}
+
+// ---------------------------------------------------------------- gmor / gscan: load-or-store of a definition
+
+// vWide: a component with a number of fields (building its definition scans them)
+type vWide struct {
+	N                      string
+	A0, A1, A2, A3, A4, A5 int
+	S0, S1, S2, S3         string
+	V                      int    `value:"7"`
+	P                      string `prop:"vk.wide:x"`
+}
+
+func (c *vWide) Naming() string { return c.N }
+
+// spinBarrier: everybody spins until `want` parties have arrived (or the deadline has passed)
+func spinBarrier(arrived *int32, want int32, giveUp time.Duration) {
+	atomic.AddInt32(arrived, 1)
+	var deadline time.Time
+	for spins := 0; atomic.LoadInt32(arrived) < want; spins++ {
+		if spins > 300 {
+			runtime.Gosched()
+			if spins%64 == 0 {
+				if deadline.IsZero() {
+					deadline = time.Now().Add(giveUp)
+				} else if time.Now().After(deadline) {
+					return
+				}
+			}
+		}
+	}
+}
+
+const gmorName = "vshared"
+
+// runGmor: see the header (`gmor`).
+func runGmor(g, trials int) hx.Case {
+	c := hx.Case{Scn: fmt.Sprintf("gmor %d %d", g, trials)}
+	if g < 1 || g > 64 || trials < 1 || trials > 100000 {
+		c.Obs, c.Oracle = "bad-line", "FAIL bad-line"
+		return c
+	}
+	c.Tags = []string{"forced-getmeta", fmt.Sprintf("goroutines=%s", bucket(g))}
+	if g < 2 {
+		c.Tags = append(c.Tags, "trivial")
+	}
+	const want = "defs=1 listed=1 kept=1"
+	got, trial := "", 0
+	out := withWatchdog(60*time.Second, func() {
+		for trial = 0; trial < trials; trial++ {
+			registry := support.DefaultDefinitionRegistry()
+			res := make([]*component_definition.Meta, g)
+			var arrived int32
+			var wg sync.WaitGroup
+			wg.Add(g)
+			for t := 0; t < g; t++ {
+				go func(t int) {
+					defer wg.Done()
+					comp := &vWide{N: fmt.Sprintf("vw%d", t)}
+					spinBarrier(&arrived, int32(g), 50*time.Millisecond)
+					res[t] = registry.GetMetaOrRegister(gmorName, comp)
+				}(t)
+			}
+			wg.Wait()
+			kept := registry.GetMetaByName(gmorName)
+			distinct := map[*component_definition.Meta]bool{}
+			allKept := 1
+			for _, m := range res {
+				distinct[m] = true
+				if m != kept || m == nil {
+					allKept = 0
+				}
+			}
+			listed := 0
+			for _, m := range registry.GetMetas() {
+				if m.Name() == gmorName {
+					listed++
+				}
+			}
+			got = fmt.Sprintf("defs=%d listed=%d kept=%d", len(distinct), listed, allKept)
+			if got != want {
+				return
+			}
+		}
+	})
+	if out != "" {
+		c.Obs, c.Oracle = out, "FAIL getmeta-"+out+" the callers did not return"
+		return c
+	}
+	c.Obs = got
+	if got != want {
+		c.Oracle = fmt.Sprintf("FAIL getmeta-two-winners trial %d: %d goroutines called GetMetaOrRegister(%q, …) on a fresh definition registry at the same moment: %s "+
+			"(defs = distinct definitions handed out, listed = entries of that name in GetMetas(), kept = every caller holds the definition GetMetaByName returns); "+
+			"a load-or-store gives every caller the one stored definition", trial, g, gmorName, got)
+	}
+	return c
+}
+
+// vJournal is a helper component the user does not register: the scanner below contributes its definition under one fixed
+// name, for every component it is shown.
+type vJournal struct{}
+
+const gscanName = "vjournal"
+
+type vJournalScanner struct {
+	journal *vJournal
+	n       int32
+	arrived int32
+	mu      sync.Mutex
+	seen    map[*component_definition.Meta]int
+}
+
+func (s *vJournalScanner) Naming() string { return "vjournalscanner" }
+func (s *vJournalScanner) PostProcessDefinitionRegistry(registry container.DefinitionRegistry, component any, name string) error {
+	if !strings.HasPrefix(name, "vj0") {
+		return nil
+	}
+	// the scans of the n components run in parallel; they line up here so that they ask for the shared name together
+	spinBarrier(&s.arrived, s.n, 20*time.Millisecond)
+	m := registry.GetMetaOrRegister(gscanName, s.journal)
+	s.mu.Lock()
+	s.seen[m]++
+	s.mu.Unlock()
+	return nil
+}
+
+// runGscan: see the header (`gscan`).
+func runGscan(n, trials int, seed uint64) hx.Case {
+	concQuiet()
+	c := hx.Case{Scn: fmt.Sprintf("gscan %d %d %d", n, trials, seed)}
+	if n < 1 || n > 99 || trials < 1 || trials > 1000 {
+		c.Obs, c.Oracle = "bad-line", "FAIL bad-line"
+		return c
+	}
+	c.Tags = []string{"scan", "scanner-shares-one-definition", fmt.Sprintf("components=%s", bucket(n))}
+	if n < 2 {
+		c.Tags = append(c.Tags, "trivial")
+	}
+	for trial := 0; trial < trials; trial++ {
+		sc := &vJournalScanner{journal: &vJournal{}, n: int32(n), seen: map[*component_definition.Meta]int{}}
+		comps := []any{sc}
+		for i := 0; i < n; i++ {
+			comps = append(comps, &vWide{N: fmt.Sprintf("vj%03d", i)})
+		}
+		a := app.NewApp()
+		var err error
+		if out := withWatchdog(20*time.Second, func() { err = a.Run(app.SetComponents(comps...), app.SetConfigLoader()) }); out != "" {
+			c.Obs, c.Oracle = out, "FAIL scan-"+out+" Run did not return normally"
+			return c
+		}
+		if err != nil {
+			// not a statement of C20 (no scanner fails here): left to the comparison with the model
+			c.Obs = "errs=? defs=0 kept=0"
+			return c
+		}
+		kept := a.GetDefinitionRegistry().GetMetaByName(gscanName)
+		sc.mu.Lock()
+		defs, total, atKept := len(sc.seen), 0, 0
+		for m, k := range sc.seen {
+			total += k
+			if m == kept && m != nil {
+				atKept = k
+			}
+		}
+		sc.mu.Unlock()
+		allKept := 0
+		if atKept == total && total == n {
+			allKept = 1
+		}
+		c.Obs = fmt.Sprintf("errs=0 defs=%d kept=%d", defs, allKept)
+		if out := withWatchdog(10*time.Second, func() { a.Close() }); out != "" {
+			c.Oracle = "FAIL close-" + out + " after a clean start"
+			return c
+		}
+		if total != n {
+			c.Oracle = fmt.Sprintf("FAIL scan-not-once trial %d: the scanner was shown %d of the %d components", trial, total, n)
+			return c
+		}
+		if defs != 1 || allKept != 1 {
+			c.Oracle = fmt.Sprintf("FAIL scan-two-definitions trial %d: the parallel scans of %d components each asked the definition registry for GetMetaOrRegister(%q, journal) and "+
+				"received %d different definitions; %d of the %d calls hold the one the registry keeps", trial, n, gscanName, defs, atKept, n)
+			return c
+		}
+	}
+	return c
+}
+
 // ---------------------------------------------------------------- child process for the race-enabled starts
 
 func concChildReplay(scn string, w *hx.Writer) {
@@ -1129,6 +1941,16 @@ func runLine(scn string, closeDelayMs int) hx.Case {
 		return runCloseZ(int(num(1)), num(2), num(3), num(4), closeDelayMs)
 	case len(f) == 5 && f[0] == "closew":
 		return runCloseW(int(num(1)), num(2), num(3), num(4))
+	case len(f) == 7 && f[0] == "closea":
+		return runCloseA(int(num(1)), num(2), num(3), num(4), num(5), num(6), closeDelayMs)
+	case len(f) == 5 && f[0] == "closed":
+		return runCloseD(int(num(1)), num(2), f[3], num(4), closeDelayMs)
+	case len(f) == 5 && f[0] == "closel":
+		return runCloseL(int(num(1)), num(2), int(num(3)), num(4), 3)
+	case len(f) == 3 && f[0] == "gmor":
+		return runGmor(int(num(1)), int(num(2)))
+	case len(f) == 4 && f[0] == "gscan":
+		return runGscan(int(num(1)), int(num(2)), num(3))
 	case len(f) >= 6 && f[0] == "cstart":
 		return runCstartLine(f)
 	case len(f) == 4 && f[0] == "scan":
@@ -2015,6 +2837,16 @@ func concCorpus(w *hx.Writer) {
 	// the first start of a process: 32 components that all carry the same tag texts; every shape at once
 	runInChild([]string{"fstart 32 1 1"}, w)
 	runInChild([]string{"fstart 40 15 2"}, w)
+	// the closing phase under a user logger (a fresh process each: the logger must be there before the first App logs):
+	// everybody fails at once without delays; a few failing among slow ones; nobody fails
+	runInChild([]string{"closel 8 255 4 1", "closel 16 65535 3 2", "closel 1 1 6 3", "closel 12 1170 3 4", "closel 5 0 1 5", "closel 0 0 1 6"}, w)
+	// load-or-store of one definition: 2 / 8 / 16 callers released together on a fresh registry; in situ: a scanner that
+	// contributes one shared definition while 32 / 48 / 3 components are scanned in parallel
+	w.Put(runGmor(2, 400))
+	w.Put(runGmor(8, 300))
+	w.Put(runGmor(16, 150))
+	w.Put(runGmor(1, 5))
+	runInChild([]string{"gscan 32 4 1", "gscan 48 4 2", "gscan 3 6 3"}, w)
 }
 
 func concGen(rng *hx.Rng, n int, tier string, w *hx.Writer) {
@@ -2093,11 +2925,55 @@ func concGen(rng *hx.Rng, n int, tier string, w *hx.Writer) {
 	for i := 0; i < n; i++ {
 		w.Put(recordHistory(rng.Fork()))
 	}
+	// the kinds below were added later; they draw after everything else, so the cases above are what they were before
+	// (a'') the closing phase under a user logger: one fresh child process for the whole batch (quick 8, thorough 40 lines)
+	{
+		nl, rounds := 8, 3
+		if tier == "thorough" {
+			nl, rounds = 40, 6
+		}
+		var ls []string
+		for i := 0; i < nl; i++ {
+			r := rng.Fork()
+			nc := 1 + r.Intn(16)
+			all := uint64(1)<<uint(nc) - 1
+			mask := all
+			switch r.Intn(4) {
+			case 0:
+				mask = r.U64() & all
+			case 1:
+				mask = 1 << uint(r.Intn(nc))
+			}
+			ls = append(ls, fmt.Sprintf("closel %d %d %d %d", nc, mask, rounds, r.U64()%1000000))
+		}
+		runInChild(ls, w)
+	}
+	// (a''') load-or-store of a definition: forced on the registry alone, and in situ during the parallel scan
+	{
+		ng, trials, ns, starts := 4, 300, 4, 3
+		if tier == "thorough" {
+			ng, trials, ns, starts = 16, 1500, 16, 8
+		}
+		for i := 0; i < ng; i++ {
+			r := rng.Fork()
+			w.Put(runGmor([]int{2, 3, 4, 8, 8, 12, 16, 24}[r.Intn(8)], trials))
+		}
+		var ls []string
+		for i := 0; i < ns; i++ {
+			r := rng.Fork()
+			nc := 8 + r.Intn(41)
+			if r.P(1, 8) {
+				nc = 2 + r.Intn(6)
+			}
+			ls = append(ls, fmt.Sprintf("gscan %d %d %d", nc, starts, r.U64()%1000000))
+		}
+		runInChild(ls, w)
+	}
 }
 
 func concReplay(scn string, w *hx.Writer) {
 	f := strings.Fields(scn)
-	if len(f) > 0 && (((f[0] == "scan" || f[0] == "fstart") && raceEnabled) || f[0] == "cstart") {
+	if len(f) > 0 && (((f[0] == "scan" || f[0] == "fstart" || f[0] == "gscan") && raceEnabled) || f[0] == "cstart" || f[0] == "closel") {
 		runInChild([]string{scn}, w)
 		return
 	}
